@@ -8,13 +8,13 @@ package main
 
 import (
 	"bufio"
-	"strings"
 	"encoding/json"
 	"errors"
 	"fmt"
 	"math/big"
 	"os"
 	"path/filepath"
+	"strings"
 	"time"
 	"unicode/utf8"
 
